@@ -30,7 +30,7 @@ def run(P, rep, tier):
         'activation created, or the type of a tag that a definition completes, may be written; functions that store through a parameter are followed to every caller. '
         'Name resolution (R08.7): the size / alignment / offset an expression yields is that of the type or member its name denotes - the exact-spelling obligations of C17 R17.17 for every name comparison and keyed '
         'table operation of the parser and the scope obligations of C03 R03.5 for tags and typedef names are re-issued. sizeof of an incomplete type (negative size marker) must end in a diagnostic on every path (R08.4 '
-        'incomplete-operand-diagnosed); a member declaration without declarator becomes an anonymous member only on paths that looked at more than the kind of its type (R08.3 anonymous-member/untagged-specifier-only).')
+        'incomplete-operand-diagnosed); a member declaration without declarator becomes an anonymous member only on paths that looked at more than the kind of its type (R08.3 anonymous-member/untagged-specifier-only); struct_members() is also executed on concrete member lists whose first declaration has no declarator (0-3 __attribute__ groups before the brace, attributes after it, qualifiers, _Alignas, tagged / untagged / typedef-name specifiers, nested specifiers) with declspec()/declarator() modelled on the tokens: exactly the untagged struct/union specifiers add one member (R08.3 anonymous-member-world/*). Static images (R08.8): the bit-field merge of the static-initializer back end puts a value into exactly the bits the layout assigned (C05 R05.4 re-issued).')
     rep.assumptions += [
         'calloc succeeds and zero-fills', 'equal()/consume()/skip() compare a token with a spelling (tokenize.c)',
         'layout grid: running offset 0..287 bits, bit-field types of 1,2,4,8 bytes with every width 1..8*size, member sizes 0..48, alignments 1..16; values never overflow int',
